@@ -158,3 +158,46 @@ T.update(parse_all({'sort2': 'sort(($a, $b))'}))
 for _n, (_ea, _eb, _d) in {'dec_dbl': ('Decimal(ka) / 4', 'kb / 4', '(xs:decimal, xs:double)'), 'dbl_dec': ('ka / 4', 'Decimal(kb) / 4', '(xs:double, xs:decimal)'),
                            'int_dbl': ('ka', 'kb / 4', '(xs:integer, xs:double)'), 'dec_int': ('Decimal(ka) / 4', 'kb', '(xs:decimal, xs:integer)')}.items():
     define(_SM.format(name=_n, ea=_ea, eb=_eb, desc=_d), globals())
+
+
+# --- added after round-2 review: a function item survives partial application / repeated use; lexical scoping at the call site -----
+
+T.update(parse_all({
+    'partial_reuse': 'let $f := concat(?, $s), $g := concat($s, ?), $u := $f(?) return ($f("b"), $g("a"), $f("c"), $g("d"))',
+    'partial_nested': 'let $f := concat(?, $s) return $f(?)("a")',
+    'partial_two': 'let $f := function($a, $b, $c) { $a * 100 + $b * 10 + $c }, $g := $f(?, $y, ?) return ($g($x, $z), $g($z, $x), $f($x, $y, $z), $g($x, $x))',
+    'lexical_call_site': 'let $x := $p, $f := function() { $x } return (let $x := $q return ($f(), $x), $f())',
+    'lexical_param': 'let $x := $p, $f := function() { $x }, $g := function($x) { $f() + $x } return ($g($q), $f())',
+    'lexical_fold': 'let $k := $p, $f := function($a, $b) { $a + $b * $k } return (let $k := $q return fold-left(($q, $p), 0, $f))',
+}))
+
+
+@ob(budget=120, bound='s: string of length <= 2; x, y, z: integers in [0, 9]: partial applications of one function item do not disturb it or each other',
+    funcs=['elementpath/xpath30/_xpath30_operators.py:partial application', 'elementpath/xpath_tokens/functions.py'])
+def partial_application_independent(s: str, x: int, y: int, z: int) -> bool:
+    """
+    pre: len(s) <= 2 and 0 <= x <= 9 and 0 <= y <= 9 and 0 <= z <= 9
+    post: _
+    """
+    return ev(T['partial_reuse'], s=s) == ['b' + s, s + 'a', 'c' + s, s + 'd'] and \
+        ev(T['partial_two'], x=x, y=y, z=z) == [x * 100 + y * 10 + z, z * 100 + y * 10 + x, x * 100 + y * 10 + z, x * 100 + y * 10 + x]
+
+
+@ob(budget=120, bound='p, q: all integers: a closure sees the bindings of its creation scope even when the call site re-binds the same name (let, parameter, fold-left)',
+    funcs=[F30 + ':_InlineFunction.__call__'])
+def lexical_scoping_at_call_site(p: int, q: int) -> bool:
+    """
+    post: _
+    """
+    return ev(T['lexical_call_site'], p=p, q=q) == [p, q, p] and ev(T['lexical_param'], p=p, q=q) == [p + q, p] \
+        and ev(T['lexical_fold'], p=p, q=q) == [q * p + p * p]
+
+
+@ob(budget=60, kind='witness', finding='C16-partial-of-partial', bound='s: string of length <= 1: a partial application applied again with a placeholder',
+    funcs=['elementpath/xpath30/_xpath30_operators.py:partial application', 'elementpath/xpath_tokens/functions.py:XPathFunction.__call__'])
+def known_partial_of_partial(s: str) -> bool:
+    """
+    pre: len(s) <= 1
+    post: _
+    """
+    return ev(T['partial_nested'], s=s) == ['a' + s]
